@@ -193,7 +193,9 @@ def twin(w):
             np.asarray(et.estimate)[...] = np.asarray(e.estimate)
         if getattr(et, "offset", None) is not None:
             np.asarray(et.offset)[...] = np.asarray(e.offset)
-        np.asarray(et.information)[...] = np.asarray(e.information)
+        # same numbers AND the same memory layout as the world's matrix (a product's rounding may depend on Fortran / C order;
+        # the twin exists to expose hidden state, not summation order)
+        et.information = np.array(np.asarray(e.information), copy=True, order="K")
     for k, (vt, v) in enumerate(zip(t.verts, I.graph_vertices(w.g))):
         still_shared = any(v.pose is e.estimate or v.pose is getattr(e, "offset", None) for e in I.graph_edges(w.g))
         twin_shared = any(vt.pose is e.estimate or vt.pose is getattr(e, "offset", None) for e in t.edges)
